@@ -141,6 +141,14 @@ func exprD(v ssa.Value, d int, onpath map[ssa.Value]bool) string {
 	case *ssa.Builtin:
 		return x.Name()
 	case *ssa.Alloc:
+		// a parameter spilled to the stack keeps the parameter's name
+		if fn := x.Parent(); fn != nil {
+			for _, p := range fn.Params {
+				if p.Name() == x.Comment {
+					return x.Comment
+				}
+			}
+		}
 		return "alloc(" + typeStr(x.Type()) + ")"
 	case *ssa.FieldAddr:
 		return r(x.X) + "." + fieldLeaf(fieldName(x))
